@@ -15,8 +15,10 @@ git checkout -- src cmake
 echo "== demo without the change"; PYTHONPATH=$wt/src /venv/bin/python -W ignore $demo > /tmp/_demo_without.txt 2>&1; echo "exit=$?"; tail -2 /tmp/_demo_without.txt
 git apply /tmp/_seed.diff
 mkdir -p /verif/seeded/$name && cp /tmp/_seed.diff /verif/seeded/$name/patch.diff && cp $demo /verif/seeded/$name/
-cd /verif
-if ! git -C /repo apply --check /tmp/_seed.diff 2>/dev/null; then echo "PATCH DOES NOT APPLY TO /repo HEAD"; exit 3; fi
-git -C /repo apply /tmp/_seed.diff
-for c in "$@"; do echo "== check $c"; ./check $c > /tmp/_seed_$c.log 2>&1; echo "exit=$?"; grep -E "^VIOLATION|^KNOWN|^HARNESS|^C[0-9]+ \[" /tmp/_seed_$c.log | cut -c1-260; grep -A1 "^VIOLATION" /tmp/_seed_$c.log | grep obligation | cut -c1-420 | head -3; done
-git -C /repo checkout -- . ; git -C /repo status --short
+cd "$(dirname "$0")/.."
+# SEED_REPO: scratch worktree of /repo HEAD to apply the change in (default: /repo itself, as the brief prescribes)
+R=${SEED_REPO:-/repo}
+if ! git -C $R apply --check /tmp/_seed.diff 2>/dev/null; then echo "PATCH DOES NOT APPLY TO $R HEAD"; exit 3; fi
+git -C $R apply /tmp/_seed.diff
+for c in "$@"; do echo "== check $c"; VERIF_REPO=$R ./check $c > /tmp/_seed_$c.log 2>&1; echo "exit=$?"; grep -E "^VIOLATION|^KNOWN|^HARNESS|^C[0-9]+ \[" /tmp/_seed_$c.log | cut -c1-260; grep -A1 "^VIOLATION" /tmp/_seed_$c.log | grep obligation | cut -c1-420 | head -3; done
+git -C $R checkout -- . ; git -C $R status --short
